@@ -77,7 +77,9 @@ func c11Stale(c *Ctx) {
 		c.Res.Violations = append(c.Res.Violations, Violation{"C11", oracle,
 			fmt.Sprintf("attempt 1 of %s went silent, was given up after the heartbeat timeout and retried, then came back (%s): %s", key, end, msg), r.Steps})
 	}
-	if r.Class() != "complete" {
+	if r.Class() == "step-budget" {
+		c.Res.Class = "stale-step-budget"
+	} else if r.Class() != "complete" {
 		if returned || r.Class() != "failed" {
 			add("stale-attempt-broke-the-run", fmt.Sprintf("run ended %s (exit codes %v): %s", r.Class(), r.ExitCodes, lastLines(r.outBuf.String(), 8)))
 		} else {
